@@ -235,7 +235,7 @@ func dumpStore(st store.Store) []memstore.KV {
 		if err != nil {
 			break
 		}
-		out = append(out, memstore.KV{K: it.Key, V: it.Value})
+		out = append(out, memstore.KV{K: append([]byte{}, it.Key...), V: append([]byte{}, it.Value...)}) // an item is only valid until the cursor advances
 	}
 	return out
 }
